@@ -480,7 +480,7 @@ def run(ctx):
         ctx.say("translator target c17idx failed: " + logt[-300:])
     proof = core.coq_properties("C17")
     ctx.say("proof stage: ok=%s theorems=%d audit=%d (%.1fs)" % (proof["ok"], len(proof["theorems"]), len(proof["audit"]), proof.get("wall_s", 0)))
-    n = ctx.scale(1200, 30000)
+    n = ctx.scale(1200, 12000)
     cases = [gen_case(ctx.rng) for _ in range(n)] + [gen_multi(ctx.rng) for _ in range(n // 3)]
     cov = core.differential(ctx, "c17", proof, cases, sim_line, oracle, model_applies=lambda c: not c.get("multi"), norm_impl=norm_impl, norm_model=norm_model, model_line_of=model_line,
                             shrink_candidates=shrink_candidates, nontrivial=lambda c: sum(1 for e in c["events"] if e[0] == "rtm") >= 2,
